@@ -188,8 +188,10 @@ def c13_coldstart(ver):
     ver.extra["cold_start"] = dict(processes=n, threads_per_process=16, detections_per_process_histogram={str(k): v for k, v in sorted(hist.items())},
                                    max_allocator_events_in_first_call=allocs)
     raced = sum(v for k, v in hist.items() if k > 1)
-    if raced < n // 10:
-        ver.inconclusive.append("cold-start race was provoked in only %d of %d processes" % (raced, n))
+    ver.extra["cold_start"]["processes_in_which_several_threads_raced_through_detection"] = raced
+    if raced == 0:
+        # nothing to conclude about the race on a machine that never provokes it (e.g. a single core)
+        ver.inconclusive.append("cold-start race was never provoked in %d processes" % n)
     ver.evaluations += n * 16
 
 
